@@ -34,7 +34,7 @@ from bind import c02
 PROP = "C01"
 NEW = "zz"
 
-MAIN_GROUPS = ["core", "nest", "blocks", "methods", "decos", "attrs", "newattrs", "core2", "defnames", "targets", "comp", "calls", "decoys", "modules"]
+MAIN_GROUPS = ["core", "nest", "blocks", "methods", "decos", "attrs", "newattrs", "recall", "stars", "starmod", "core2", "defnames", "targets", "comp", "calls", "decoys", "modules"]
 FEATURE_GROUPS = ["params", "stmts", "walrus", "lambda"]
 
 _ROOT = None
@@ -301,7 +301,7 @@ def run_case(item):
     ren = beh["ren"]
     pre = ps.Program(beh["pre"])
     post = ps.Program(beh["post"], order_as={ren["new"]: ren["old"]})
-    post.sibname = pre.libname       # a module rename does not move the importer's sibling
+    post.sibname = pre.sibname       # a module rename does not move the sibling / second starred module
     r = ps.render(pre)
     rp = ps.render(post)
     try:
